@@ -243,6 +243,7 @@ def c04_rf18(run):
     rf_inline.rf45(run)
     rf_inline.rf46(run)
     rf_inline.rf50(run)
+    rf_inline.rf51(run)
     rf_fold.rf48(run)
 
 
@@ -368,6 +369,7 @@ def c02_rf26(run):
     rf_fold.rf40(run)
     rf_fold.rf41(run)
     rf_fold.rf48(run)
+    rf_inline.rf51(run)
 
 
 PLAN = {
